@@ -292,11 +292,131 @@ def pool_full(rows, method, variant, V):
     return out
 
 
+RANK_METHODS = ('spearman', 'rho-a', 'kendall', 'tau-b', 'tau-a')
+
+
+def pool_partial(st, method, variant, n, sigma):
+    """(round 7) the pooled RDM of a stack whose RDMs lack *different* entries, pair by pair (plain loops):
+    every RDM is normalised on its own present entries (cosine: root mean square, corr: own mean and
+    standard deviation, ranks among its own present values; the whitened norms of util/pooling.py on the
+    pairs every RDM has, with the matching sub-block of V); pooled entry k is the mean over the RDMs'
+    normalised entries **for pair k** where every RDM has that pair and missing where any RDM lacks it
+    (`_nan_mean`: "the average ... with nans for masked entries"); the correlation types are shifted by the
+    minimum of the present pooled entries.  Returns (expected list with None = missing, normalised rows)
+    or None when the case is not judged (whitened pooling without a single common pair)."""
+    m = len(st[0])
+    ok = [all(r[k] is not None for r in st) for k in range(m)]
+    cov = variant == 'pool' and method.endswith('_cov')
+    base = method[:-4] if method.endswith('_cov') else method
+    vi = None
+    if cov:
+        if not any(ok):
+            return None
+        vi = np.linalg.inv(v_sub(n, sigma, ok))
+    Z = []
+    for r in st:
+        idx = [k for k in range(m) if r[k] is not None]
+        row = [None] * m
+        if idx:
+            p = np.array([r[k] for k in idx], dtype=float)
+            if method in ('euclid', 'neg_riem_dist'):
+                z = p
+            elif method in RANK_METHODS:
+                z = np.array(_ranks(p), dtype=float)
+            else:
+                if base == 'corr':
+                    p = p - p.mean()
+                if cov:
+                    x = np.array([a for a, k in zip(p, idx) if ok[k]], dtype=float)
+                    nrm = math.sqrt(float(x @ vi @ x)) if float(x @ vi @ x) >= 0 else float('nan')
+                elif base == 'cosine':
+                    nrm = math.sqrt(float((p ** 2).mean()))
+                else:
+                    nrm = float(p.std())
+                z = p / (1.0 if nrm == 0 else nrm)
+            for k, a in zip(idx, z.tolist()):
+                row[k] = a
+        Z.append(row)
+    out = [sum(row[k] for row in Z) / len(Z) if ok[k] else None for k in range(m)]
+    if base == 'corr' and method not in RANK_METHODS:
+        fin = [a for a in out if a is not None and a == a]
+        if fin:
+            mn = min(fin)
+            out = [None if a is None else a - mn + (0.01 if variant == 'pool' else 0.0) for a in out]
+    return out, Z
+
+
+def _pair(n, k):
+    c = 0
+    for a in range(n):
+        for b in range(a + 1, n):
+            if c == k:
+                return (a, b)
+            c += 1
+    return (None, None)
+
+
+def _shift_explanation(Z, masks, k, u, tol):
+    """is the observed entry k the mean of the RDMs' j-th *present* entries (rows compacted, i.e. pooled
+    entry-shifted)?  -> text naming the pairs whose values were averaged, or ''"""
+    comp = [[(kk, a) for kk, a in enumerate(row) if a is not None] for row in Z]
+    first = [kk for kk, b in enumerate(masks[0]) if b]
+    if k not in first:
+        return ''
+    j = first.index(k)
+    if any(len(c) <= j for c in comp):
+        return ''
+    cand = sum(c[j][1] for c in comp) / len(comp)
+    if u is not None and _close(u, cand, tol, cand) and any(c[j][0] != k for c in comp):
+        return ' -- it is the mean of the RDMs\' %d-th present entries, i.e. of entries %s (entry-shifted)' % (
+            j, [c[j][0] for c in comp])
+    return ''
+
+
+def check_pool_differing(case, impl, st, masks):
+    """(round 7) RDMs of one stack lack different pairs (from_partials with different condition subsets,
+    of equal or unequal size): the pooled entry of a pair is the mean of the RDMs' (normalised) entries for
+    that pair, missing where any RDM lacks it -- never a value of another pair"""
+    n, method, variant = case['n'], case['method'], case['variant']
+    counts = [sum(mk) for mk in masks]
+    mk = 'differing-equal-count' if len(set(counts)) == 1 else 'differing-unequal-count'
+    extra = dict(method=method, variant=variant, masks=mk)
+    with np.errstate(all='ignore'):
+        pp = pool_partial(st, method, variant, n, case['sigma'])
+    if pp is None:
+        return None
+    exp, Z = pp
+    if isinstance(impl, dict) and 'exc' in impl:
+        # the other admissible outcome is a rejection (the statement: "ignored consistently or rejected")
+        if impl['exc'] == 'ValueError':
+            return None
+        return fail(case, 'pool', f'pool_rdm raised {impl["exc"]} on RDMs lacking different entries', impl,
+                    'a pooled RDM with missing entries where any RDM lacks the pair, or a ValueError', **extra)
+    cov = variant == 'pool' and method.endswith('_cov')
+    tol = 5e-4 if cov else 1e-9
+    shifted = method in ('corr', 'corr_cov')
+    for k, (u, e) in enumerate(zip(impl['pooled'], exp)):
+        pr = _pair(n, k)
+        if e is None:
+            if u is not None:
+                lack = [i for i, m_ in enumerate(masks) if not m_[k]]
+                why = '' if shifted else _shift_explanation(Z, masks, k, u, tol)
+                return fail(case, 'pool', f'pooled entry {k} (pair {pr}) has a value although RDM(s) {lack} lack '
+                            f'that pair{why}', u, None, **extra)
+        elif e != e:
+            continue
+        elif u is None or not _close(u, e, tol, e):
+            why = '' if shifted else _shift_explanation(Z, masks, k, u, tol)
+            return fail(case, 'pool', f'pooled entry {k} (pair {pr}) is not the mean of the RDMs\' entries for that '
+                        f'pair{why}', u, e, **extra)
+    return None
+
+
 def check_pool(case, impl):
     st = [[None if v is None else float(F(v)) for v in r] for r in case['stack']]
     masks = [[v is not None for v in r] for r in st]
     if any(m != masks[0] for m in masks):
-        return None                      # the statement speaks about a common mask only
+        return check_pool_differing(case, impl, st, masks)
     if isinstance(impl, dict) and 'exc' in impl:
         return fail(case, 'pool', f'pool_rdm raised {impl["exc"]}', impl, 'a pooled RDM',
                     method=case['method'], variant=case['variant'])
